@@ -138,6 +138,9 @@ namespace c04
         template <class E> static auto cref(Slot<E>& s) { const E& x = s.x; const bool& f = s.f; return xtl::optional(x, f); }
         template <class E> static auto ival(Slot<E>& s) { return xtl::optional(E(s.x), int(s.fi)); }
         template <class E> static auto iref(Slot<E>& s) { return xtl::optional(s.x, s.fi); }
+        template <class E> static auto refxf(E& x, bool& f) { return xtl::optional(x, f); }
+        template <class E> static auto crefxf(const E& x, const bool& f) { return xtl::optional(x, f); }
+        template <class E> static auto valxf(const E& x, bool f) { return xtl::optional(E(x), bool(f)); }
     };
     struct WMsk
     {
@@ -147,6 +150,9 @@ namespace c04
         template <class E> static auto cref(Slot<E>& s) { const E& x = s.x; const bool& f = s.f; return xtl::masked_value(x, f); }
         template <class E> static auto ival(Slot<E>& s) { return xtl::masked_value(E(s.x), int(s.fi)); }
         template <class E> static auto iref(Slot<E>& s) { return xtl::masked_value(s.x, s.fi); }
+        template <class E> static auto refxf(E& x, bool& f) { return xtl::masked_value(x, f); }
+        template <class E> static auto crefxf(const E& x, const bool& f) { return xtl::masked_value(x, f); }
+        template <class E> static auto valxf(const E& x, bool f) { return xtl::masked_value(E(x), bool(f)); }
     };
     // the closure kinds really are what the tables say
     static_assert(std::is_same<decltype(WOpt::val(std::declval<Slot<int>&>())), xtl::xoptional<int, bool>>::value, "V");
@@ -226,15 +232,28 @@ namespace c04
     typedef void (*EvalFn)(const double*, const int*, Outcome&);
     typedef double (*RefFn)(const double*);
 
+    // aliasing modes: both operands of a binary form designate the same value (x op x)
+    enum { A_NONE, A_SAME_V, A_SAME_R, A_RR_SF, A_RR_DF, A_VR, A_RV, A_RC };
+    inline const char* amode_name(int m)
+    {
+        static const char* n[] = {"", "same-object(value-closure)", "same-object(ref-closure)", "two-ref-closures-same-value-same-flag",
+                                  "two-ref-closures-same-value-own-flags", "value-closure-and-ref-closure-of-one-variable", "ref-closure-and-value-closure-of-one-variable",
+                                  "ref-closure-and-const-ref-closure-same-value-same-flag"};
+        return n[m];
+    }
+    inline const char* amode_pat(int m) { static const char* n[] = {"", "VV", "RR", "RR", "RR", "VR", "RV", "RC"}; return n[m]; }
+    inline bool amode_tied_flag(int m) { return m == A_SAME_V || m == A_SAME_R || m == A_RR_SF || m == A_RC; }
+
     struct Case
     {
         std::string wrapper, elem, op, pat;
         int kind, arity, dom;
         int ec[3];
         bool traced, mixed;
+        int alias;        // aliasing mode (A_NONE: distinct operand objects over distinct storage)
         EvalFn eval;
         RefFn ref;
-        std::string name() const { return wrapper + "<" + elem + ">|" + op + "|" + pat; }
+        std::string name() const { return wrapper + "<" + elem + ">|" + op + "|" + pat + (alias ? std::string("|") + amode_name(alias) : std::string()); }
     };
     inline std::vector<Case>& table() { static std::vector<Case> t; return t; }
 
@@ -317,6 +336,73 @@ namespace c04
         else             // value closure: the source it was built from must not change
             ok = ok && same_d(to_d(s1.x), to_d(elem<E1>::make(v[0]))) && s1.f == (p[0] != 0) && s1.fi == p[0];
         o.intact = ok;
+    }
+
+    // ---- aliasing: s holds THE value x (and flag f); s2 only lends a second flag object
+    template <class W, class E, int MODE> struct alias_mk;
+    template <class W, class E> struct alias_mk<W, E, A_SAME_V> { template <class F> static void with(Slot<E>& s, Slot<E>&, F f) { auto a = W::val(s); f(a, a); } };
+    template <class W, class E> struct alias_mk<W, E, A_SAME_R> { template <class F> static void with(Slot<E>& s, Slot<E>&, F f) { auto a = W::ref(s); f(a, a); } };
+    template <class W, class E> struct alias_mk<W, E, A_RR_SF> { template <class F> static void with(Slot<E>& s, Slot<E>&, F f) { auto a = W::ref(s); auto b = W::ref(s); f(a, b); } };
+    template <class W, class E> struct alias_mk<W, E, A_RR_DF> { template <class F> static void with(Slot<E>& s, Slot<E>& s2, F f) { auto a = W::ref(s); auto b = W::refxf(s.x, s2.f); f(a, b); } };
+    template <class W, class E> struct alias_mk<W, E, A_VR> { template <class F> static void with(Slot<E>& s, Slot<E>& s2, F f) { auto a = W::val(s); auto b = W::refxf(s.x, s2.f); f(a, b); } };
+    template <class W, class E> struct alias_mk<W, E, A_RV> { template <class F> static void with(Slot<E>& s, Slot<E>& s2, F f) { auto a = W::ref(s); auto b = W::valxf(s.x, s2.f); f(a, b); } };
+    template <class W, class E> struct alias_mk<W, E, A_RC> { template <class F> static void with(Slot<E>& s, Slot<E>&, F f) { auto a = W::ref(s); auto b = W::crefxf(s.x, s.f); f(a, b); } };
+
+    template <class W, class Op, class E, int MODE>
+    void ev2a(const double* v, const int* p, Outcome& o)
+    {
+        Slot<E> s = mk<E>(v[0], p[0]);
+        Slot<E> s2 = mk<E>(v[0], p[1]);
+        alias_mk<W, E, MODE>::with(s, s2, [&](auto& a, auto& b) {
+            const auto& ca = a;
+            const auto& cb = b;
+            cnt_reset();
+            auto r = Op::apply(ca, cb);
+            grab(o);
+            o.present = pres(r);
+            o.val = val(r);
+            const double c = to_d(elem<E>::make(v[0]));
+            o.intact = same_d(val(ca), c) && same_d(val(cb), c) && pres(ca) == (p[0] != 0) && pres(cb) == (p[1] != 0) && same_d(to_d(s.x), c) &&
+                       s.f == (p[0] != 0) && s2.f == (p[1] != 0);
+        });
+    }
+
+    template <class W, class Op, class E, int MODE>
+    void ev_cmpda(const double* v, const int* p, Outcome& o)
+    {
+        Slot<E> s = mk<E>(v[0], p[0]);
+        Slot<E> s2 = mk<E>(v[0], p[1]);
+        alias_mk<W, E, MODE>::with(s, s2, [&](auto& t, auto& b) {
+            const auto& cb = b;
+            cnt_reset();
+            auto& ret = Op::apply(t, cb);
+            grab(o);
+            o.present = pres(t);
+            o.val = val(t);
+            o.self = (static_cast<const void*>(std::addressof(ret)) == static_cast<const void*>(std::addressof(t)));
+            const double c0 = to_d(elem<E>::make(v[0]));
+            const bool pa = o.present != 0;
+            bool ok = true;
+            switch (MODE)
+            {
+            case A_SAME_V:   // the object is its own right-hand side; the variable it was copied from is not involved
+                ok = same_d(to_d(s.x), c0) && s.f == (p[0] != 0);
+                break;
+            case A_SAME_R: case A_RR_SF: case A_RC:   // right-hand side designates the target's value and flag
+                ok = same_d(to_d(s.x), o.val) && s.f == pa && same_d(val(cb), o.val) && pres(cb) == pa;
+                break;
+            case A_RR_DF:    // same value, own flag: the right-hand flag must not change
+                ok = same_d(to_d(s.x), o.val) && s.f == pa && same_d(val(cb), o.val) && s2.f == (p[1] != 0) && pres(cb) == (p[1] != 0);
+                break;
+            case A_VR:       // target is a copy of x, right-hand side refers to x: x and its flag must not change
+                ok = same_d(to_d(s.x), c0) && s.f == (p[0] != 0) && s2.f == (p[1] != 0) && same_d(val(cb), c0) && pres(cb) == (p[1] != 0);
+                break;
+            case A_RV:       // target refers to x, right-hand side is a copy of x taken before
+                ok = same_d(to_d(s.x), o.val) && s.f == pa && same_d(val(cb), c0) && pres(cb) == (p[1] != 0) && s2.f == (p[1] != 0);
+                break;
+            }
+            o.intact = ok;
+        });
     }
 
     // value_or: v[0]/p[0] the optional, v[1] the default
@@ -466,6 +552,7 @@ namespace c04
         c.wrapper = w; c.elem = e; c.op = op; c.pat = pat; c.kind = kind; c.arity = arity; c.dom = dom;
         c.ec[0] = ec0; c.ec[1] = ec1; c.ec[2] = ec2;
         c.traced = traced; c.mixed = mixed; c.eval = ev; c.ref = rf;
+        c.alias = A_NONE;
         table().push_back(c);
     }
 
@@ -639,6 +726,37 @@ namespace c04
         }
     };
 
+    template <class W, class Op, class E>
+    struct rega
+    {
+        template <int MODE> static EvalFn pick(yes) { return &ev_cmpda<W, Op, E, MODE>; }
+        template <int MODE> static EvalFn pick(no) { return &ev2a<W, Op, E, MODE>; }
+        template <int MODE> static void one()
+        {
+            add_case(W::name(), elem<E>::name(), Op::nm(), amode_pat(MODE), Op::kind, 2, Op::dom, elem<E>::ec, elem<E>::ec, 0, elem<E>::traced, false,
+                     pick<MODE>(bc<(Op::kind == K_CMPD)>()), &rf2<Op, E, E>);
+            table().back().alias = MODE;
+        }
+        static void all(no) {}
+        static void all(yes)
+        {
+            one<A_SAME_V>(); one<A_SAME_R>(); one<A_RR_SF>(); one<A_RR_DF>(); one<A_VR>(); one<A_RV>(); one<A_RC>();
+        }
+        static void go() { all(op_ok<Op, E, E, OPS_ALL>()); }
+    };
+    // every binary operator, ==/!= and compound assignment with operands that designate the same value
+    template <class W, class E>
+    void reg_alias()
+    {
+#define X(ID, TOK, DOM, INTONLY) rega<W, op_##ID, E>::go();
+        C04_BINOPS(X)
+        C04_CMPDOPS(X)
+#undef X
+#define X(ID, TOK, KIND) rega<W, op_##ID, E>::go();
+        C04_EQOPS(X)
+#undef X
+    }
+
     // ---- families
     template <class W, class E1, class E2, int M, int MODE>
     void reg_binops()
@@ -786,6 +904,14 @@ namespace c04
         reg_cmpdops<WOpt, TI, TI, masks<TI>::m2, OPS_ALL>();
         reg_value_or<int, masks<int>::msel>::go();
         reg_value_or<double, masks<double>::msel>::go();
+#elif C04_PART == 21
+        reg_alias<WOpt, int>();
+        reg_alias<WOpt, double>();
+        reg_alias<WOpt, TI>();
+#elif C04_PART == 22
+        reg_alias<WMsk, int>();
+        reg_alias<WMsk, double>();
+        reg_alias<WMsk, TI>();
 #elif C04_PART == 18
         reg_eqops<WMsk, TI, TI, masks<TI>::m2>();
         reg_unops<WMsk, TI, masks<TI>::m2>();
@@ -800,7 +926,7 @@ namespace c04
     static std::vector<double> g_ai, g_ad, g_mi, g_md, g_ml;
     static bool g_replay = false;
     static long long g_eval = 0, g_nontrivial = 0, g_allpresent = 0, g_skipped = 0, g_forked = 0, g_noneval_judged = 0,
-                     g_eq_on_missing = 0, g_traced_seen = 0, g_intflag = 0, g_intflag_truthy_not1 = 0, g_mixed = 0, g_mixed_fractional = 0;
+                     g_eq_on_missing = 0, g_traced_seen = 0, g_intflag = 0, g_intflag_truthy_not1 = 0, g_mixed = 0, g_mixed_fractional = 0, g_alias = 0, g_alias_selfunequal = 0;
 
     static void alphabets(bool thorough)
     {
@@ -946,7 +1072,9 @@ namespace c04
             }
             s += dstr(v[i], c.ec[i] != EC_DBL);
         }
-        return s + "]";
+        s += "]";
+        if (c.alias) s += std::string(" [aliasing: ") + amode_name(c.alias) + "]";
+        return s;
     }
 
     static void report(const Case& c, const double* v, const int* p, const char* what, const std::string& detail)
@@ -958,6 +1086,7 @@ namespace c04
             pr += c.pat[i] == 'P' ? 'p' : char('0' + p[i]);
             pb += char('0' + p[i]);
         }
+        if (c.alias) pos += std::string("/alias=") + amode_name(c.alias);
         std::string sig = "C04/" + c.wrapper + "<" + c.elem + ">/" + c.op + "/" + pos + "/pres=" + pr + "/" + what;
         std::vector<std::string> rp;
         rp.push_back("--one");
@@ -996,6 +1125,7 @@ namespace c04
         if (has_tri) ++g_intflag;
         if (truthy2) ++g_intflag_truthy_not1;
         if (c.mixed) { ++g_mixed; if (frac && all_present) ++g_mixed_fractional; }
+        if (c.alias) { ++g_alias; if (all_present && std::isnan(v[0])) ++g_alias_selfunequal; }
 
         if (o.sig != 0)
         {
@@ -1100,9 +1230,10 @@ namespace c04
         else
         {
             // a few actual cases for the evidence file
-            static bool s_missing = false, s_present = false, s_forked = false, s_other = false, s_flag = false, s_mixed = false;
+            static bool s_missing = false, s_present = false, s_forked = false, s_other = false, s_flag = false, s_mixed = false, s_alias = false;
             bool* slot = nullptr;
-            if (truthy2 && !all_present) { if ((g_eval % 37) == 11) slot = &s_flag; }
+            if (c.alias) { if (all_present && std::isnan(v[0]) && (c.kind == K_EQ || c.kind == K_NE)) slot = &s_alias; }
+            else if (truthy2 && !all_present) { if ((g_eval % 37) == 11) slot = &s_flag; }
             else if (c.mixed && frac && all_present) { if ((g_eval % 29) == 3) slot = &s_mixed; }
             else if (forked) slot = &s_forked;
             else if (c.kind == K_CMPD || c.kind == K_SELECT || c.kind == K_EQ) { if (!all_present && (g_eval % 53) == 7) slot = &s_other; }
@@ -1126,23 +1257,30 @@ namespace c04
         double v[3] = {0, 0, 0};
         int p[3] = {1, 1, 1};
         size_t n0 = al[0]->size(), n1 = c.arity > 1 ? al[1]->size() : 1, n2 = c.arity > 2 ? al[2]->size() : 1;
+        if (c.alias)
+        {
+            n1 = 1;   // both operands designate the same value
+            if (amode_tied_flag(c.alias)) { nopt = 1; combos = 2; }   // ... and the same flag
+        }
         for (long m = 0; m < combos; ++m)
         {
             for (int i = 0; i < 3; ++i) p[i] = 1;
             long r = m;
             for (int j = 0; j < nopt; ++j) { p[optpos[j]] = int(r % radix[j]); r /= radix[j]; }
+            if (c.alias && amode_tied_flag(c.alias)) p[1] = p[0];
             for (size_t i0 = 0; i0 < n0; ++i0)
                 for (size_t i1 = 0; i1 < n1; ++i1)
                     for (size_t i2 = 0; i2 < n2; ++i2)
                     {
                         v[0] = (*al[0])[i0];
-                        if (c.arity > 1) v[1] = (*al[1])[i1];
+                        if (c.arity > 1) v[1] = c.alias ? v[0] : (*al[1])[i1];
                         if (c.arity > 2) v[2] = (*al[2])[i2];
                         run_one(c, v, p, 0);
                     }
         }
         vf::stat("overload_instances", 1);
         if (c.mixed) vf::stat("overload_instances_mixed_element_types", 1);
+        if (c.alias) vf::stat("overload_instances_aliased_operands", 1);
         bool t = false;
         for (int i = 0; i < c.arity; ++i) t = t || tri(c.pat[i]);
         if (t) vf::stat("overload_instances_with_int_flags", 1);
@@ -1221,6 +1359,8 @@ int main(int argc, char** argv)
     vf::stat("cases_with_truthy_int_flag_other_than_1", g_intflag_truthy_not1);
     vf::stat("cases_mixed_element_types", g_mixed);
     vf::stat("cases_mixed_all_present_with_fractional_operand", g_mixed_fractional);
+    vf::stat("cases_aliased_operands", g_alias);
+    vf::stat("cases_aliased_operands_all_present_nan", g_alias_selfunequal);
     vf::stat("skipped_underlying_operation_undefined", g_skipped);
     vf::stat("forked_cases", g_forked);
     vf::stat("non_evaluation_judged", g_noneval_judged);
